@@ -207,4 +207,4 @@ def run(ctx) -> None:
     nsh = 32
     ctx.exhaustive("all-alias-subsets", MOD, "exh_shard", [(i, nsh) for i in range(nsh)],
                    f"trees {EX_TREE} and {EX_TREE2}: all alias maps x spacing present/absent, + repeated calls on one architecture")
-    ctx.random("random-trees-and-alias-maps", MOD, "strategy", "check_case", 8000 if ctx.tier == "quick" else 120000)
+    ctx.random("random-trees-and-alias-maps", MOD, "strategy", "check_case", 8000 if ctx.tier == "quick" else 400000)
